@@ -124,6 +124,13 @@ func (m *Machine) bigStub(fn *ssa.Function, args []Value) (Value, bool) {
 					arr.elems = append(arr.elems, m.constInt(big.NewInt(0), types.Typ[types.Uint8]))
 				}
 				out := SliceV{arr: m.newObj(arr, "bytes"), len: n, cap: n}
+				if bs := m.byteDecompose(b.lin, n); bs != nil {
+					// the value is literally sum byte_i 256^i over byte-ranged symbols (it came from SetBytes): hand the bytes back
+					for i := 0; i < n; i++ {
+						m.store(elemPtr(out, i), bs[i])
+					}
+					return out, true
+				}
 				rest := b.lin
 				for i := n - 1; i >= 0; i-- {
 					q, r := m.divmod(rest, big.NewInt(256))
@@ -346,4 +353,48 @@ type invDef struct {
 	r   string
 	x   *Lin
 	mod *big.Int
+}
+
+// byteDecompose recognises l = sum_i d_i 256^(n-1-i) where every digit d_i is either a constant byte or a symbol with
+// bounds inside [0,255] occurring with coefficient exactly 256^(n-1-i); returns the n digits (big-endian) or nil.
+func (m *Machine) byteDecompose(l *Lin, n int) []Value {
+	digits := make([]Value, n)
+	used := make([]bool, n)
+	for sym, k := range l.k {
+		if k.Sign() <= 0 {
+			return nil
+		}
+		tz := k.TrailingZeroBits()
+		if tz%8 != 0 || new(big.Int).Rsh(k, tz).Cmp(big.NewInt(1)) != 0 {
+			return nil
+		}
+		pos := int(tz / 8)
+		bd, ok := m.bounds[sym]
+		if !ok || bd[0].Sign() < 0 || bd[1].Cmp(big.NewInt(255)) > 0 || pos >= n || used[n-1-pos] {
+			return nil
+		}
+		used[n-1-pos] = true
+		digits[n-1-pos] = VInt{lin: linSym(sym)}
+	}
+	if l.c.Sign() < 0 {
+		return nil
+	}
+	cb := l.c.Bytes()
+	if len(cb) > n {
+		return nil
+	}
+	for i := 0; i < n; i++ {
+		var c byte
+		if j := i - (n - len(cb)); j >= 0 {
+			c = cb[j]
+		}
+		if used[i] {
+			if c != 0 {
+				return nil
+			}
+			continue
+		}
+		digits[i] = m.constInt(big.NewInt(int64(c)), types.Typ[types.Uint8])
+	}
+	return digits
 }
